@@ -396,3 +396,17 @@ Proof.
   - intros H t Ht. apply In_tids in Ht. destruct Ht as [n [Hn T]]. subst t.
     apply (proj1 (classify_spec st lk n Complete) (H n Hn)).
 Qed.
+
+(* the witness: results = {}; merged = merge(results); results[s] = analyse(load(s)) (twice);
+   report = render(merged).  Well-formed (acyclic), every other command handles it, but the
+   cached status cannot even build its table *)
+Definition late_dag : dag :=
+  [(1, 10, [3; 5]); (2, 11, []); (3, 12, [2]); (4, 11, []); (5, 12, [4]); (6, 13, [1])]%positive.
+
+Lemma cached_refuted : exists d : dag, wf_dag d /\
+  forall st lk, cached_run d None [(st, lk)] = [None] /\ length (status_events d st lk) = length d.
+Proof.
+  exists late_dag. split.
+  - apply wf_dagb_sound. vm_compute. reflexivity.
+  - intros st lk. split; reflexivity.
+Qed.
